@@ -15,7 +15,15 @@ TIMINGS = ["same_before", "same_after", "earlier_eval", "never"]
 PATH = "/c9/prod"
 
 
-def build(pkg, placement, producer, timing, two_modules=False):
+def build(pkg, placement, producer, timing, two_modules=False, load_form="assign"):
+    _lf[0] = load_form
+    return _build(pkg, placement, producer, timing, two_modules)
+
+
+_lf = ["assign"]
+
+
+def _build(pkg, placement, producer, timing, two_modules=False):
     p = gen.new_program(pkg)
     m0 = gen.add_module(p, "l0")
     m1 = gen.add_module(p, "l1") if two_modules else m0
@@ -39,24 +47,24 @@ def build(pkg, placement, producer, timing, two_modules=False):
         reader_body_fn = None
     elif placement == "helper":
         h = gen.add_fn(p, m1, "rh", const=51)
-        p["fns"][h]["stmts"] = [gen.s_load(PATH)]
+        p["fns"][h]["stmts"] = [gen.s_load(PATH, _lf[0])]
     elif placement == "helper2":
         h2 = gen.add_fn(p, m1, "rh2", const=52)
-        p["fns"][h2]["stmts"] = [gen.s_load(PATH)]
+        p["fns"][h2]["stmts"] = [gen.s_load(PATH, _lf[0])]
         h = gen.add_fn(p, m1, "rh", const=51)
         p["fns"][h]["stmts"] = [gen.s_call(h2, [])]
     elif placement == "kept":
         h = gen.add_fn(p, m1, "reader", const=53)
-        p["fns"][h]["stmts"] = [gen.s_load(PATH)]
+        p["fns"][h]["stmts"] = [gen.s_load(PATH, _lf[0])]
     else:
         hh = gen.add_fn(p, m1, "rkh", const=54)
-        p["fns"][hh]["stmts"] = [gen.s_load(PATH)]
+        p["fns"][hh]["stmts"] = [gen.s_load(PATH, _lf[0])]
         h = gen.add_fn(p, m1, "reader", const=53)
         p["fns"][h]["stmts"] = [gen.s_call(hh, [])]
 
     def read_stmt():
         if placement == "top":
-            return gen.s_load(PATH)
+            return gen.s_load(PATH, _lf[0])
         if placement in ("kept", "kept_helper"):
             return gen.s_keep("/c9/reader", h, [])
         return gen.s_call(h, [])
@@ -91,10 +99,11 @@ def edits_of(p, which):
 
 
 def case_job(arg):
-    placement, producer, timing, edit, store, populated, two_mod, idx = arg
+    placement, producer, timing, edit, store, populated, two_mod, idx = arg[:8]
+    load_form = arg[8] if len(arg) > 8 else "assign"
     rep = core.Report("C09")
     rep.evaluations = 1
-    p0 = build("c9_%d" % idx, placement, producer, timing, two_mod)
+    p0 = build("c9_%d" % idx, placement, producer, timing, two_mod, load_form)
     p1, d = edits_of(p0, edit)
     ids = p0["_ids"]
     R, P = ids["rmain"], ids["pmain"]
@@ -114,7 +123,7 @@ def case_job(arg):
             st["new_process"] = i == 0
             if i > 0 and "how" not in st:
                 st["how"] = "reload"
-    case = progs._case("load:%s/%s/%s/%s" % (placement, producer, timing, edit), [p0, p1], {(0, 1): d}, hist, store)
+    case = progs._case("load:%s/%s/%s/%s/%s" % (placement, producer, timing, edit, load_form), [p0, p1], {(0, 1): d}, hist, store)
     obs = e1.run_case(case)
     if obs["failed"]:
         rep.inconclusive.append(obs["failed"])
@@ -123,7 +132,7 @@ def case_job(arg):
         if "setup_error" in o["impl"] or "setup_error" in o["ref"]:
             rep.inconclusive.append("setup error: %s" % (o["impl"].get("setup_error") or o["ref"].get("setup_error"))[-300:])
             return rep
-    feats = {"placement": placement, "producer": producer, "timing": timing, "edit": edit, "store": store}
+    feats = {"placement": placement, "producer": producer, "timing": timing, "edit": edit, "store": store, "load_form": load_form}
 
     def classify(case_, hi, f):
         return mech_of(feats, f)
@@ -157,7 +166,7 @@ def case_job(arg):
             rep.count("reader_invalidation_checks")
             if "reader" not in obs["steps"][log_idx]["impl"]["log"]:
                 rep.violate("%s: the kept reader was not re-evaluated after %s changed what it serves" % (case["name"], PATH), {"case": case, "step": log_idx}, mechanism="reader-not-invalidated", features=feats)
-    rep.nontriv(("c09", placement, producer, timing, edit, store, populated, two_mod))
+    rep.nontriv(("c09", placement, producer, timing, edit, store, populated, two_mod, load_form))
     return rep
 
 
@@ -168,7 +177,7 @@ def mech_of(feats, f):
 def run(tier, seed):
     rep = core.Report("C09")
     rep.rule = (
-        "load placed at top level of the evaluated function / in a non-kept helper / two helpers down / inside a kept function / in a helper of a kept function x producer (data function, keep call) x "
+        "load written as an assignment / positional argument / keyword argument / inside a subscript / inside str.format(), placed at top level of the evaluated function / in a non-kept helper / two helpers down / inside a kept function / in a helper of a kept function x producer (data function, keep call) x "
         "timing (earlier in the same evaluation, later in the same evaluation [must be rejected], by an earlier evaluation, never) x edits (producer body, producer variable, producer callee, unrelated) x "
         "stores memory/local x fresh/populated x one or two modules; histories with re-evaluation, edit, revert, restart. "
         "distinct_nontrivial = distinct combinations fully observed."
@@ -186,7 +195,11 @@ def run(tier, seed):
                                 continue
                             if tier == "quick" and timing == "never" and edit != "prod_const":
                                 continue
-                            jobs.append((placement, producer, timing, edit, store, populated, idx % 2 == 0, idx))
+                            jobs.append((placement, producer, timing, edit, store, populated, idx % 2 == 0, idx, "assign"))
+                            # the other syntactic positions of the load expression
+                            for fi, form in enumerate(gen.LOAD_FORMS[1:]):
+                                if edit == "prod_const" and store == "local" and timing in ("same_before", "earlier_eval", "same_after") and (tier != "quick" or (idx + fi) % 2 == 0 or placement == "kept"):
+                                    jobs.append((placement, producer, timing, edit, store, populated, idx % 2 == 0, idx * 10 + fi + 1, form))
     results = core.fork_map(case_job, jobs, timeout=900)
     for j, r in zip(jobs, results):
         if isinstance(r, core.JobFailed):
@@ -204,8 +217,9 @@ def replay(payload):
     rep = core.Report("C09")
     c = payload["case"]["case"]
     name = c["name"].split(":", 1)[1]
-    placement, producer, timing, edit = name.split("/")
+    placement, producer, timing, edit = name.split("/")[:4]
+    load_form = (name.split("/") + ["assign"])[4]
     idx = int(c["versions"][0]["pkg"].split("_")[1])
     populated = any(st.get("entry") for st in c["history"][:1]) and timing == "same_after"
-    rep.merge(case_job((placement, producer, timing, edit, c["store"], populated, len(c["versions"][0]["modules"]) == 2, idx)))
+    rep.merge(case_job((placement, producer, timing, edit, c["store"], populated, len(c["versions"][0]["modules"]) == 2, idx, load_form)))
     return rep
